@@ -45,6 +45,43 @@ def load_known():
     return res
 
 
+def item_keys(src):
+    """names of the top-level items and of the functions inside impl blocks of one source file (test modules skipped)"""
+    import rustlex
+    fs = rustlex.FileStruct(src)
+    keys = []
+    for it in fs.items:
+        if it.kind in ("use", "mod", "extern", "") or it.kind == "macro_rules":
+            continue
+        keys.append(f"{it.kind} {it.trait + ' for ' if it.trait else ''}{it.name}")
+    for f in fs.fns:
+        if f.owner is not None:
+            keys.append(f"fn {f.owner.trait + ' for ' if f.owner.trait else ''}{f.owner.name}::{f.item.name}")
+    return keys
+
+
+def unknown_items(ov):
+    """items of the annotated files that did not exist when the contracts were written (contracts/ITEMS.known)"""
+    path = os.path.join(engine.CONTRACTS, "ITEMS.known")
+    if not os.path.exists(path):
+        return {}
+    known = {}
+    for line in open(path, encoding="utf-8"):
+        if line.startswith("#") or "\t" not in line:
+            continue
+        rel, key = line.rstrip("\n").split("\t", 1)
+        known.setdefault(rel, set()).add(key)
+    res = {}
+    for rel, fo in ov.files.items():
+        try:
+            extra = [k for k in item_keys(fo.src) if k not in known.get(rel, set())]
+        except Exception:
+            extra = []
+        if extra:
+            res[rel] = extra
+    return res
+
+
 class Failure:
     """one failed obligation"""
 
@@ -389,6 +426,17 @@ def decide(pid, P, tier, seed, sc, ov, r, fn_ranges, lt, t0, replay):
         write_evidence(ev_path, pid, tier, seed, ov, r, failures, units, t0, notes, violations=max(1, len(new_own)), extra=extra)
         log(f"VIOLATION property={pid} replay={path}")
         return 1
+    if status == "own_failed":
+        # triage "missing contract" vs. "violation": code the contracts know nothing about (a new function or impl in the
+        # file of the failing function) has no specification, so an obligation that now fails may fail for that reason alone
+        unk = unknown_items(ov)
+        hit = sorted({f.site_file for f in new_own if f.site_file in unk})
+        if hit:
+            for f in new_own:
+                notes.append("own obligation not re-proved: " + f.ident())
+            notes.append("the changed tree contains items without contracts (" + "; ".join(f"{h}: {', '.join(unk[h][:4])}" for h in hit)
+                         + "): the failed obligations may be due to their missing specifications, not to a violation; no failing input exists within the bounded search")
+            status = "undecided"
     if status == "own_failed":
         path = write_replay(pid, new_own, r, ov, None)
         for f in new_own:
